@@ -158,3 +158,30 @@ PROPS["C15"] = dict(
     assumptions=_WALLET_ASSUME,
     units=[dict(name="tip", run="^TestC15TipFollowsBackend$", quick=500, thorough=2500, shards_quick=2, shards_thorough=16, timeout=1500)],
 )
+
+PROPS["C11"] = dict(pkg="c11", level="exploration",
+  rule=("plan of 1-8 (thorough 1-16) transactions on one real bdb file drawn first (model-steered: 90% existing buckets, locality, bulk puts making multi-page buckets), then executed against "
+        "internal/dbmodel (copy on begin): walletdb.Update/db.Update/View/db.View/Batch, manual BeginReadWriteTx+Commit/Rollback, BeginReadTx; 0-12 (24) ops each (put/get/delete, nested create/"
+        "create-if-not-exists/delete to depth 3, top-level create/delete, sequences, ForEach, ForEachBucket, cursor walks incl. Delete+re-seek, writes through a read tx); function outcome nil/error/panic, "
+        "early (before any op) or late; reopen p=0.15; after every tx a fresh read tx must equal the committed model, after a failed/panicked one a probe write tx must commit (20 s watchdog per step). "
+        "Non-trivial = >=2 tx with >=1 failed/panicked/rolled back after a write, or a cursor walk over >=3 keys with >=2 Next and >=2 Prev, or a successful nested-bucket delete; distinct = fingerprint of the rendered plan."),
+  assumptions=["one transaction at a time on the handle (bbolt documents that a read tx and a write tx opened from the same goroutine may deadlock on remap); snapshot isolation between overlapping transactions is therefore not exercised",
+               "bucket names <= 300 bytes (bbolt does not size-check bucket names); a bucket handle is re-fetched for every operation; the bucket is not modified between the calls of one cursor operation except by cursor.Delete",
+               "not asserted (interface silent): cursor position after Delete or after a nil result, order of ForEachBucket, exact error of DeleteTopLevelBucket / sequence calls / cursor.Delete / CreateBucket on a read tx, key size limit (stored or ErrKeyTooLarge), nil vs empty slice for an empty value, DeleteNestedBucket with an empty name (only: fails)",
+               "open findings F14/F15 (bbolt cursor Last/Prev over pages emptied in the same transaction) are excluded by exact shape predicates and counted"],
+  units=[dict(name="tx", run="^TestC11Transactions$", quick=8000, thorough=25000, shards_quick=1, shards_thorough=16),
+         dict(name="regress", kind="plain", run="^TestC11Regress", quick=None, thorough=None, timeout=300),
+         dict(name="fuzz", kind="fuzz", run="^FuzzC11$", tiers=["thorough"], thorough="240s", parallel=8, timeout=900)])
+PROPS["C19"] = dict(pkg="c19", level="exploration",
+  rule=("1-3 fake migration.Manager per case, each a table of 0-12 distinct version numbers (dense / sparse / around 2^31 and 2^32-1) declared ascending, descending or shuffled with nil migrations mixed in, stored version below / "
+        "equal to a table number / between / at / above the latest; migration.Upgrade inside one walletdb.Update on a real bdb file: fault-free, again on the upgraded state, and once per fault position (CurrentVersion, EVERY pending "
+        "migration failing before or after its writes, SetVersion, of every manager), each followed by a fault-free retry; trace, SetVersion calls, stored version seen by each migration and inside the tx, and a recursive dump of the file "
+        "are compared with a pure model. VersionsToApply/GetLatestVersion are also called directly. Real managers: copy of a wallet file with the wtxmgr/waddrmgr version marker forced above/at/below the latest, tried through wtxmgr.Open, "
+        "waddrmgr.Open, migration.Upgrade, wallet.Open and Upgrade with SetVersion / the real migration failing after it ran. Non-trivial = >=2 pending migrations declared out of order or >=2 non-nil pending migrations (failure at a "
+        "position > 1); for the real managers: a marker above the latest, or a real migration rolled back."),
+  assumptions=["version numbers within one table are distinct (as in both real tables)", "a failing SetVersion of the fake manager fails before writing; the wrapped real managers write and then fail",
+               "real-manager downgrades are limited to wtxmgr 0/1 and waddrmgr 7 (older waddrmgr migrations need chain data that a fresh wallet does not have); faults are injected by wrapping the real managers, not through proxydb"],
+  units=[dict(name="tables", run="^TestC19UpgradeTables$", quick=10000, thorough=60000, shards_quick=1, shards_thorough=16),
+         dict(name="real", run="^TestC19RealManagers$", quick=3000, thorough=10000, shards_quick=1, shards_thorough=4),
+         dict(name="regress", kind="plain", run="^TestC19Regress", quick=None, thorough=None),
+         dict(name="fuzz", kind="fuzz", run="^FuzzC19$", tiers=["thorough"], thorough="120s", parallel=8, timeout=600)])
